@@ -60,7 +60,8 @@ def model_runs(quick):
             ("two2", cfg_text(maxn=2, maxn2=2, maxlen=2, edgemax=3, pseudos="P0")),
             ("sample", cfg_text(maxn=4, maxn2=0, maxlen=2, edgemax=2, maxedges=3, pseudos="P0", maxseqs=(2, 3))),
             ("sample2", cfg_text(maxn=3, maxn2=3, maxlen=1, edgemax=2, maxedges=3, pseudos="P0", maxseqs=(2,))),
-            ("tcr", cfg_text(maxn=3, maxn2=2, maxlen=1, edgemax=3, pseudos="P3", elemkinds=("A", "B", "AB")))]
+            ("tcr", cfg_text(maxn=3, maxn2=0, maxlen=1, edgemax=3, pseudos="P3", elemkinds=("A", "B", "AB"))),
+            ("tcr2", cfg_text(maxn=2, maxn2=2, maxlen=1, edgemax=2, pseudos="P0", elemkinds=("A", "B", "AB")))]
 
 
 # ---------------------------------------------------------------- concrete arguments
@@ -233,6 +234,11 @@ TRACE_CONSTS = ("  Letters = {0}\n  MaxLen = 0\n  MaxN = 2\n  MaxN2 = 0\n  EdgeM
                 "  MetricKinds = {\"default\"}\n  MaxSeqs = {0}\n  Mutations = {}")
 
 
+def _replay_item(ctx, i, item):
+    replay_group(ctx, item[1], item[0])
+    ctx.traces += len(item[1])
+
+
 def run(ctx):
     import pyrepseq as prs
     ctx.rule = ("PcDelta.tla (ShortCircuit | Downsample (nondeterministic), ChooseMetric, Distances, Histogram with NumPy's half-open / last-closed "
@@ -244,16 +250,20 @@ def run(ctx):
     ctx.assumptions = ["TCR rows are modelled by their CDR3 strings only (the default metrics are the CDR3 Levenshtein family)",
                        "floats snapped to rationals (denominators <= 2*#pairs + 2)"]
     n = 0
-    for name, text in model_runs(ctx.quick):
-        res = run_cfg(ctx, name, text)
+    runs = model_runs(ctx.quick)
+    results = ctx.mc_batch("MCPcDelta", [(name, text, None) for name, text in runs], parallel=4, workers=4, timeout=1500)
+    for name, text in runs:
+        res = results[name]
         groups = {}
         for doc in res.printed:
             if "inp" in doc:
                 groups.setdefault(json.dumps(doc["inp"], sort_keys=True), []).append(doc)
-        for docs in ctx.sample(list(groups.values()), 12000, "inputs"):
+        res.printed = []
+        items = []
+        for docs in ctx.sample(list(groups.values()), 40000, "inputs"):
             n += 1
-            replay_group(ctx, docs, n)
-            ctx.traces += len(docs)
+            items.append((n, docs))
+        ctx.parallel(items, _replay_item)
     ctx.exhaustive = True
     sessions = make_sessions(ctx, 40 if ctx.quick else 400)
     # long strings: homopolymers of up to 400 letters (distances beyond 255), one- and two-collection forms
